@@ -12,6 +12,7 @@ pub mod c09;
 pub mod c10;
 pub mod c13;
 pub mod c15;
+pub mod c16;
 pub mod c20;
 
 type LaneFn = fn(&Ctx) -> Report;
@@ -28,6 +29,7 @@ pub fn lanes_of(id: &str) -> Vec<(&'static str, LaneFn)> {
         "C10" => vec![("streams", c10::streams), ("search_collect", c10::search_collect)],
         "C13" => vec![("histories", c13::histories), ("long_histories", c13::long_histories)],
         "C15" => vec![("random", c15::random), ("patterns", c15::patterns)],
+        "C16" => vec![("paging", c16::paging)],
         "C20" => vec![("random", c20::random), ("errors", c20::errors)],
         _ => vec![],
     }
@@ -62,6 +64,7 @@ pub fn replay(ctx: &Ctx, id: &str, v: &Value) -> Value {
         "C10" => c10::replay(ctx, v),
         "C13" => c13::replay(ctx, v),
         "C15" => c15::replay(ctx, v),
+        "C16" => c16::replay(ctx, v),
         "C20" => c20::replay(ctx, v),
         _ => Report::new(),
     };
